@@ -94,3 +94,17 @@ def implementation_identifiers(modules=('_dictable', '_dict', '_dictattr', '_per
                 for q in a.posonlyargs + a.args + a.kwonlyargs:
                     names.add(q.arg)
     return sorted(n for n in names - {'self', 'cls'} if n.isidentifier() and not keyword.iskeyword(n))
+
+
+def known_finding_keys(prop):
+    """keys listed as `finding:` for this property in /verif/known_findings.txt (a native battery must not report those again)"""
+    import os, re
+    out = set()
+    try:
+        for line in open(os.path.join(os.path.dirname(os.path.dirname(os.path.abspath(__file__))), 'known_findings.txt')):
+            m = re.match(r'finding:\s*property=(\S+)\s+(?:key=)?(\S+)', line)
+            if m and m.group(1) == prop:
+                out.add(m.group(2))
+    except OSError:
+        pass
+    return out
